@@ -106,6 +106,12 @@ def check_types_table(res: Result, tree):
                     # discount if discount is not None else ones
                     good = (c.kind == "cmp" and c.args[1] is params["discount"] and c.args[2] is NONE and
                             ((c.args[0] == "isnot" and a is params["discount"]) or (c.args[0] == "is" and b is params["discount"])))
+                if not good and dc.kind == "phi" and len(dc.args[0]) == 2 and any(x is params["discount"] for x in dc.args[0]) \
+                        and any(is_fill(x, "ones") for x in dc.args[0]):
+                    # `if discount is None: return ones(...)` / `return discount` (statement form of the same default)
+                    tests = [e.target for e in vfg.events if e.kind == "py_branch" and e.target is not None and e.target.kind == "cmp"
+                             and e.target.args[0] in ("is", "isnot") and e.target.args[1] is params["discount"] and e.target.args[2] is NONE]
+                    good = bool(tests)
                 if not good:
                     ok = False
                     why.append(f"discount {txt(dc)}")
